@@ -49,6 +49,32 @@ func cfgBool(c *Case, k string) bool {
 	return false
 }
 
+// waitDone waits until wg is done; gives up (false) as soon as the whole process is structurally
+// quiescent (every goroutine blocked, twice) while wg is still not done: then it never will be.
+func waitDone(h *hlog, wg *sync.WaitGroup) bool {
+	done := make(chan struct{})
+	go func() { wg.Wait(); close(done) }()
+	for i := 0; i < 3; i++ {
+		select {
+		case <-done:
+			return true
+		default:
+		}
+		quiesce(h, 5*time.Second, nil)
+		select {
+		case <-done:
+			return true
+		case <-time.After(2 * time.Millisecond):
+		}
+	}
+	select {
+	case <-done:
+		return true
+	default:
+		return false
+	}
+}
+
 func waitGoroutines(base int, d time.Duration) int {
 	deadline := time.Now().Add(d)
 	for {
@@ -154,14 +180,7 @@ func runMapIter(c *Case) *Obs {
 		reqc <- struct{}{}
 	}
 	close(reqc)
-	done := make(chan struct{})
-	go func() { wg.Wait(); close(done) }()
-	leaked := false
-	select {
-	case <-done:
-	case <-time.After(5 * time.Second):
-		leaked = true
-	}
+	leaked := !waitDone(h, &wg)
 	extra := 0
 	if !leaked {
 		extra = waitGoroutines(baseG, 2*time.Second)
@@ -425,27 +444,17 @@ func runMapStream(c *Case) *Obs {
 		cx.cancel()
 	}
 	close(reqc)
-	done := make(chan struct{})
-	go func() { wg.Wait(); close(done) }()
-	leaked := false
-	select {
-	case <-done:
-	case <-time.After(5 * time.Second):
-		leaked = true
-	}
+	leaked := !waitDone(h, &wg)
 	closeHung := false
 	if !leaked {
 		cmu.Lock()
 		cbc := closedByConsumer
 		cmu.Unlock()
 		if !cbc {
-			cd := make(chan struct{})
-			go func() { st.Close(); close(cd) }()
-			select {
-			case <-cd:
-			case <-time.After(5 * time.Second):
-				closeHung = true
-			}
+			var cw sync.WaitGroup
+			cw.Add(1)
+			go func() { defer cw.Done(); st.Close() }()
+			closeHung = !waitDone(h, &cw)
 		}
 	}
 	parent.cancel()
